@@ -69,6 +69,8 @@ Proof.
   apply in_app_or in H as [H|H]; [auto|contradiction].
 Qed.
 
+Arguments all_torn : simpl never.
+
 Lemma all_torn_iff s : all_torn s = true <-> forall k, k <= nsrc s -> torn (cb s k) = true.
 Proof.
   unfold all_torn. rewrite forallb_forall. split; intros H k Hk.
@@ -508,6 +510,233 @@ Proof.
       pose proof (comp_all_torn _ _ _ HC) as Hall.
       constructor; cbn; auto.
       * intros j. apply (Src_frame _ _ s); cbn; auto; try (intros H; congruence).
-      * apply PhDone; cbn; auto. rewrite Hc0. reflexivity. apply (c_cbs _ _ _ _ HC).
+      * apply PhDone; cbn; auto; try congruence. apply (c_cbs _ _ _ _ HC).
       * rewrite (proj2 (all_torn_iff s) Hall). exact Hbad.
+Qed.
+
+(* facts read off the phase *)
+Lemma phase_freed s :
+  Phase s -> freed s = false \/ (forall j, j <= nsrc s -> torn (cb s j) = true).
+Proof. intros [? ? ? ? [? ?]|? ? ? ? [? ?]|? ? [? ?]|? ? ? [? ?]|? ? ? ? [? ?]|? ? ? ? ? ? ? [? ?]|]; auto. Qed.
+
+Lemma phase_cases_cb s j :
+  Phase s -> j <= nsrc s -> cb s j = BNew \/ built (cb s j) \/ cbs s = ATLEAST.
+Proof.
+  intros [i Hsp Hle Hnr Hq Hna Hlt Hge|i Hsp Hle Hnr Hq Hna Hlt Hi Hgt|Hsp Hnr Hq Hna Hb
+         |Hsp Hcbs Hnr Hq Hb|w todo Hsp Hnr Hq HC|i w todo Hsp Hle Hrq Hun Hq HC
+         |Hsp Hnr Hc1 Hf1 Hcbs Ht] Hj; auto.
+  - destruct (Nat.lt_ge_cases j i); auto.
+  - destruct (Nat.lt_trichotomy j i) as [H|[->|H]]; auto.
+    right; left. rewrite Hi. right; left; reflexivity.
+  - right; right. apply (c_cbs _ _ _ _ HC).
+  - right; right. apply (c_cbs _ _ _ _ HC).
+Qed.
+
+Lemma phase_allc s :
+  Phase s -> cbs s = ALLC ->
+  sp s = SFin /\ no_rcomp s /\ Quiet0 s /\ (forall j, j <= nsrc s -> built (cb s j)).
+Proof.
+  intros [i Hsp Hle Hnr Hq Hna Hlt Hge|i Hsp Hle Hnr Hq Hna Hlt Hi Hgt|Hsp Hnr Hq Hna Hb
+         |Hsp Hcbs Hnr Hq Hb|w todo Hsp Hnr Hq HC|i w todo Hsp Hle Hrq Hun Hq HC
+         |Hsp Hnr Hc1 Hf1 Hcbs Ht] Ha; try congruence; auto.
+  - pose proof (c_cbs _ _ _ _ HC). congruence.
+  - pose proof (c_cbs _ _ _ _ HC). congruence.
+Qed.
+
+Lemma phase_rcomp s i w todo :
+  Phase s -> rq s i = RComp w todo ->
+  sp s = SFin /\ i <= nsrc s /\ (forall j w' l', rq s j = RComp w' l' -> j = i) /\ Quiet0 s /\
+  CompInv (S i) w todo s.
+Proof.
+  intros [i0 Hsp Hle Hnr Hq Hna Hlt Hge|i0 Hsp Hle Hnr Hq Hna Hlt Hi Hgt|Hsp Hnr Hq Hna Hb
+         |Hsp Hcbs Hnr Hq Hb|w0 todo0 Hsp Hnr Hq HC|i0 w0 todo0 Hsp Hle Hrq Hun Hq HC
+         |Hsp Hnr Hc1 Hf1 Hcbs Ht] Hr; try (exfalso; eapply Hnr; eauto; fail).
+  pose proof (Hun _ _ _ Hr) as ->. rewrite Hrq in Hr. injection Hr as <- <-. auto.
+Qed.
+
+(* steps of requesters that are not inside complete(): SET, the exchange that does not
+   complete, CBDONE *)
+Lemma Phase_stable s s' :
+  Phase s -> sp s' = sp s -> nsrc s' = nsrc s -> completions s' = completions s ->
+  freed s' = freed s ->
+  (cbs s' = cbs s \/ (cbs s' = ATLEAST /\ cbs s <> ALLC)) ->
+  (forall j w l, rq s' j = RComp w l <-> rq s j = RComp w l) ->
+  (forall j, cb s' j = cb s j \/ (cb s j = BReg /\ cb s' j = BExec) \/
+             (cb s j = BExec /\ cb s' j = BDone /\ forall w l, rq s j <> RComp w l)) ->
+  Phase s'.
+Proof.
+  intros Hph Esp En Ec Ef Hcbs Hrq Htr.
+  assert (Hbuilt : forall j, built (cb s j) -> built (cb s' j)).
+  { intros j Hb. unfold built in *.
+    destruct (Htr j) as [H|[[_ H]|[_ [H _]]]]; rewrite H; auto. }
+  assert (Hnew : forall j, cb s j = BNew -> cb s' j = BNew).
+  { intros j Hb. destruct (Htr j) as [H|[[H _]|[H _]]]; congruence. }
+  assert (Hnr' : no_rcomp s -> no_rcomp s').
+  { intros Hnr j w l H. apply Hrq in H. eapply Hnr; eauto. }
+  assert (Hq' : Quiet0 s -> Quiet0 s').
+  { intros [H1 H2]. split; congruence. }
+  assert (Hna' : cbs s <> ALLC -> cbs s' <> ALLC).
+  { intros H. destruct Hcbs as [Hc|[Hc _]]; congruence. }
+  destruct Hph as [i Hsp Hle Hnr Hq Hna Hlt Hge|i Hsp Hle Hnr Hq Hna Hlt Hi Hgt|Hsp Hnr Hq Hna Hb
+         |Hsp Hcbs0 Hnr Hq Hb|w todo Hsp Hnr Hq HC|i w todo Hsp Hle Hr Hun Hq HC
+         |Hsp Hnr Hc1 Hf1 Hcbs0 Ht].
+  - apply (PhReg _ i); rewrite ?En; auto; congruence.
+  - apply (PhInl _ i); rewrite ?En; auto; try congruence.
+    destruct (Htr i) as [H|[[H _]|[H _]]]; congruence.
+  - apply PhCas; rewrite ?En; auto; congruence.
+  - apply PhArmed; rewrite ?En; auto; try congruence.
+    destruct Hcbs as [Hc|[_ Hc]]; congruence.
+  - apply (PhCompS _ w todo); auto; try congruence.
+    apply (comp_stable 0 w todo s); auto.
+    + pose proof (c_cbs _ _ _ _ HC). destruct Hcbs as [Hc|[Hc _]]; congruence.
+    + intros j. destruct (Htr j) as [H|[H|(H1 & H2 & _)]]; auto.
+  - apply (PhCompR _ i w todo); rewrite ?En; auto; try congruence.
+    + apply Hrq. exact Hr.
+    + intros j w' l' H. apply Hrq in H. eauto.
+    + apply (comp_stable (S i) w todo s); auto.
+      * pose proof (c_cbs _ _ _ _ HC). destruct Hcbs as [Hc|[Hc _]]; congruence.
+      * intros j. destruct (Htr j) as [H|[H|(H1 & H2 & H3)]]; auto.
+        right; right. repeat split; auto. intros Heq. injection Heq as ->. eapply H3; eauto.
+  - apply PhDone; rewrite ?En; auto; try congruence.
+    + destruct Hcbs as [Hc|[Hc _]]; congruence.
+    + intros j Hj. specialize (Ht j Hj).
+      destruct (Htr j) as [H|[[H _]|[H _]]]; [congruence| |]; rewrite H in Ht; discriminate.
+Qed.
+
+Lemma req_inv n req pre i s s' evs :
+  Inv n req pre s -> i <= nsrc s -> step_req i s = Some (s', evs) -> Inv n req pre s'.
+Proof.
+  intros [Hn Hsrc Hph Hlate Hbad Hg] Hle Hstep. unfold step_req in Hstep.
+  pose proof (Hsrc i) as [Hok Hset Hk Hreq Hpre Hprov].
+  (* sources other than i are not concerned by a step of requester i outside complete() *)
+  assert (Hfr : forall s1 p j, j <> i -> stp s1 j = stp s j -> cb s1 j = cb s j ->
+            (cbs s1 = cbs s \/ cbs s1 = ATLEAST) -> sp s1 = sp s ->
+            Src req pre (set_rq s1 i p) j).
+  { intros s1 p j Hne H1 H2 H3 H4. apply (Src_frame _ _ s); cbn; rewrite ?upd_neq by exact Hne; auto;
+      try (intros H; right; congruence). }
+  destruct (rq s i) eqn:Hrq; try discriminate Hstep.
+  - (* RSet: SET i *)
+    rewrite Hrq in Hok. apply ok3_set in Hok as [Hst Hcb]. rewrite Hst in Hstep.
+    destruct Hcb as [Hcb|[Hcb|Hcb]]; rewrite Hcb in Hstep; injection Hstep as <- <-.
+    + (* no callback yet: it will run inline in start() *)
+      constructor; cbn; auto.
+      * intros j. destruct (Nat.eq_dec j i) as [->|Hne].
+        -- constructor; cbn; rewrite ?upd_eq; auto; try discriminate. rewrite Hcb. reflexivity.
+        -- apply Hfr; cbn; rewrite ?upd_neq by exact Hne; auto.
+      * apply (Phase_stable s); cbn; auto.
+        intros j w l. destruct (Nat.eq_dec j i) as [->|Hne];
+          [rewrite upd_eq, Hrq; split; discriminate|rewrite upd_neq by exact Hne; tauto].
+      * intros H. destruct (Hg H) as (j & Hj & Hs). exists j. split; auto.
+        unfold upd. destruct (Nat.eqb j i); auto.
+    + (* a registered callback: claimed, runs on this thread *)
+      assert (Hf : freed s = false).
+      { destruct (phase_freed s Hph) as [H|H]; auto. specialize (H i Hle). rewrite Hcb in H.
+        discriminate. }
+      constructor; cbn; rewrite ?Hf; auto.
+      * intros j. destruct (Nat.eq_dec j i) as [->|Hne].
+        -- constructor; cbn; rewrite ?upd_eq; auto; try discriminate.
+        -- apply Hfr; cbn; rewrite ?upd_neq by exact Hne; auto.
+      * apply (Phase_stable s); cbn; auto.
+        -- intros j w l. destruct (Nat.eq_dec j i) as [->|Hne];
+             [rewrite upd_eq, Hrq; split; discriminate|rewrite upd_neq by exact Hne; tauto].
+        -- intros j. destruct (Nat.eq_dec j i) as [->|Hne];
+             [rewrite upd_eq; auto|rewrite upd_neq by exact Hne; auto].
+      * intros H. exists i. rewrite upd_eq. auto.
+    + (* the callback has already been deregistered by complete() *)
+      assert (Hat : cbs s = ATLEAST).
+      { destruct (phase_cases_cb s i Hph Hle) as [H|[H|H]]; auto; [congruence|].
+        rewrite Hcb in H. destruct H as [H|[H|[H|H]]]; discriminate. }
+      constructor; cbn; auto.
+      * intros j. destruct (Nat.eq_dec j i) as [->|Hne].
+        -- constructor; cbn; rewrite ?upd_eq; auto; try discriminate. rewrite Hcb. reflexivity.
+        -- apply Hfr; cbn; rewrite ?upd_neq by exact Hne; auto.
+      * apply (Phase_stable s); cbn; auto.
+        intros j w l. destruct (Nat.eq_dec j i) as [->|Hne];
+          [rewrite upd_eq, Hrq; split; discriminate|rewrite upd_neq by exact Hne; tauto].
+      * intros H. exists i. rewrite upd_eq. auto.
+  - (* RXchg: the callback exchanges callbackState_ *)
+    rewrite Hrq in Hok. apply ok3_xchg in Hok as [Hcb Hst].
+    assert (Hf : freed s = false).
+    { destruct (phase_freed s Hph) as [H|H]; auto. specialize (H i Hle). rewrite Hcb in H.
+      discriminate. }
+    assert (Hgoal : cbs s <> ALLC ->
+              Inv n req pre (set_rq (set_cbs (touch s) ATLEAST) i
+                               (after_cb (set_cbs (touch s) ATLEAST) i))).
+    { intros Hna. unfold after_cb. cbn. rewrite Hcb.
+      constructor; cbn; rewrite ?Hf; auto.
+      - intros j. destruct (Nat.eq_dec j i) as [->|Hne].
+        + constructor; cbn; rewrite ?upd_eq; auto; try discriminate. rewrite Hcb, Hst. reflexivity.
+        + apply Hfr; cbn; auto.
+      - apply (Phase_stable s); cbn; auto.
+        intros j w l. destruct (Nat.eq_dec j i) as [->|Hne];
+          [rewrite upd_eq, Hrq; split; discriminate|rewrite upd_neq by exact Hne; tauto].
+      - intros _. exists i. auto. }
+    destruct (cbs s) eqn:Hcbs; injection Hstep as <- <-; try (apply Hgoal; discriminate).
+    (* ALL_CONSTRUCTED_NOT_CALLED: this callback completes *)
+    destruct (phase_allc s Hph Hcbs) as (Hsp & Hnr & [Hc0 _] & Hb).
+    constructor; cbn; rewrite ?Hf; auto.
+    + intros j. destruct (Nat.eq_dec j i) as [->|Hne].
+      * constructor; cbn; rewrite ?upd_eq; auto; try discriminate. rewrite Hcb, Hst. reflexivity.
+      * apply Hfr; cbn; auto.
+    + apply (PhCompR _ i false (skip (cb s) (order (nsrc s)))); cbn; rewrite ?upd_eq; auto.
+      * intros j w' l'. destruct (Nat.eq_dec j i) as [->|Hne]; auto.
+        rewrite upd_neq by exact Hne. intros H. exfalso. eapply Hnr; eauto.
+      * split; auto.
+      * refine (comp_enter (S i) (set_rq (set_cbs (touch s) ATLEAST) i _) _ _ _); cbn; auto.
+        intros i0 Hi0. injection Hi0 as <-. auto.
+    + intros _. exists i. auto.
+  - (* RComp: inside complete(), called from this requester's callback *)
+    destruct (phase_rcomp s i w todo Hph Hrq) as (Hsp & _ & Hun & [Hc0 Hf0] & HC).
+    destruct (comp_step (S i) w todo s) as [[[s1 evs1] [[w' todo']|]]|] eqn:Hcs;
+      try discriminate Hstep; injection Hstep as <- <-.
+    + destruct (comp_step_cont _ _ _ _ _ _ _ _ HC Hcs)
+        as (HC' & (E1 & E2 & E3 & E4 & E5 & E6 & E7 & E8 & E9) & Htr).
+      pose proof (c_cbs _ _ _ _ HC) as Hat.
+      constructor; cbn; try congruence.
+      * intros j. apply (Src_comp _ _ s); cbn; rewrite ?E2, ?E3, ?E4; auto.
+        -- destruct (Nat.eq_dec j i) as [->|Hne];
+             [rewrite upd_eq; right; eauto 8|rewrite upd_neq by exact Hne; auto].
+        -- destruct (Htr j) as [H|[H|[H|(H1 & H2 & H3)]]]; auto.
+           injection H3 as <-. right; right; right. eauto.
+      * apply (PhCompR _ i w' todo'); cbn; rewrite ?upd_eq; auto; try congruence.
+        -- intros j w0 l0. destruct (Nat.eq_dec j i) as [->|Hne]; auto.
+           rewrite upd_neq, E4 by exact Hne. apply Hun.
+        -- split; cbn; congruence.
+        -- apply (CompInv_ext _ _ _ s1); auto.
+      * rewrite E9, Hf0. exact Hlate.
+      * intros H. rewrite E1, E3. apply Hg. congruence.
+    + destruct (comp_step_fin _ _ _ _ _ _ Hcs) as [-> ->].
+      pose proof (comp_all_torn _ _ _ HC) as Hall.
+      pose proof (c_cbs _ _ _ _ HC) as Hat.
+      assert (Hrem : cb s i = BRemoved).
+      { apply (c_self _ _ _ _ HC i eq_refl). intros []. }
+      unfold after_cb. cbn. rewrite Hrem.
+      constructor; cbn; auto.
+      * intros j. destruct (Nat.eq_dec j i) as [->|Hne].
+        -- rewrite Hrq in Hok. apply ok3_comp in Hok as [Hst _].
+           constructor; cbn; rewrite ?upd_eq; auto; try discriminate.
+           rewrite Hrem, Hst. reflexivity.
+        -- apply Hfr; cbn; auto.
+      * apply PhDone; cbn; auto; try congruence.
+        intros j w0 l0. cbn. destruct (Nat.eq_dec j i) as [->|Hne];
+          [rewrite upd_eq; discriminate|rewrite upd_neq by exact Hne].
+        intros H. apply Hne. eapply Hun; eauto.
+      * rewrite (proj2 (all_torn_iff s) Hall). exact Hbad.
+  - (* RStore: CBDONE i *)
+    rewrite Hrq in Hok. apply ok3_store in Hok as [Hcb Hst]. injection Hstep as <- <-.
+    assert (Hf : freed s = false).
+    { destruct (phase_freed s Hph) as [H|H]; auto. specialize (H i Hle). rewrite Hcb in H.
+      discriminate. }
+    constructor; cbn; rewrite ?Hf; auto.
+    + intros j. destruct (Nat.eq_dec j i) as [->|Hne].
+      * constructor; cbn; rewrite ?upd_eq; auto; try discriminate.
+        -- rewrite Hst. reflexivity.
+        -- intros H. destruct (Hk H) as [H1|[H1|[H1|H1]]]; auto; congruence.
+      * apply Hfr; cbn; rewrite ?upd_neq by exact Hne; auto.
+    + apply (Phase_stable s); cbn; auto.
+      * intros j w l. destruct (Nat.eq_dec j i) as [->|Hne];
+          [rewrite upd_eq, Hrq; split; discriminate|rewrite upd_neq by exact Hne; tauto].
+      * intros j. destruct (Nat.eq_dec j i) as [->|Hne];
+          [rewrite upd_eq|rewrite upd_neq by exact Hne; auto].
+        right; right. repeat split; auto. intros w l. rewrite Hrq. discriminate.
 Qed.
